@@ -49,10 +49,24 @@ func TestC10OneSwapPerChannel(t *testing.T) {
 	col := stats.Get("C10.hist")
 	rapid.Check(t, func(t *rapid.T) {
 		h := newHist(t, HistCfg{MaxSteps: 18, Chains: []string{"btc", "lbtc"}, Restarts: true, MultiSwap: true, PeerMoves: true, Timeouts: true,
-			Weights: map[string]int{"start": 4, "deliver": 3, "progress": 4, "settle": 1, "restart": 1, "mine": 1, "peermove": 2, "timeout": 1}})
+			Weights: map[string]int{"start": 4, "deliver": 3, "progress": 4, "settle": 1, "restart": 1, "mine": 1, "peermove": 2, "timeout": 1, "storefault": 2}})
 		defer h.Close()
 		h.monitors = []func(*Hist){monitorC10(col)}
-		h.run(h.stdActions())
+		acts := h.stdActions()
+		// one of the next store writes (or sends) of a node fails: an initiation or a request handler that
+		// breaks off half-way must not leave a persisted, non-terminal swap behind an unlocked channel
+		acts["storefault"] = func() {
+			n := h.nodes()[rapid.IntRange(0, 1).Draw(t, "sfNode")]
+			call := rapid.SampledFrom([]string{"store.UpdateData", "store.UpdateData", "msg.Send"}).Draw(t, "sfCall")
+			var q []sim.FaultKind
+			for i, k := 0, rapid.IntRange(0, 3).Draw(t, "sfSkip"); i < k; i++ {
+				q = append(q, sim.FaultNone)
+			}
+			n.Faults[call] = append(q, sim.FaultBefore)
+			h.opf("fault(%s,%s,skip=%d)", n.Name, call, len(q)-1)
+			h.class("fault:" + call)
+		}
+		h.run(acts)
 		starts := 0
 		spell := map[string]bool{}
 		for _, o := range h.Ops {
